@@ -19,7 +19,7 @@ META = {
     'technique': 'lock-table reference model over the BASIC-level history of OPEN/LOCK/UNLOCK/GET/PUT/CLOSE on 2-3 file numbers; directed 13-Allen-relation matrix',
     'level': 'exploration',
     'level_text': (
-        'Runtime oracle: (1) while a number holds the file FOR OUTPUT/APPEND every further OPEN (all modes, ACCESS and LOCK clauses) must '
+        'Every OPEN spells the one host file differently (bare name, C: prefix, leading backslash, .\\, SUB\\..\\, mixed case). Runtime oracle: (1) while a number holds the file FOR OUTPUT/APPEND every further OPEN (all modes, ACCESS and LOCK clauses) must '
         'fail and a plain OPEN must succeed again after CLOSE; (2) the table of ranges BASIC reported as locked and not yet unlocked/closed '
         'must stay pairwise non-overlapping (a <= d and c <= b; whole-file lock overlaps everything), same or different numbers; (3) LOCK of '
         'a range overlapping a held one must give exactly error 70; (4) GET/PUT of a record inside a range held through another number must '
@@ -41,12 +41,16 @@ META = {
     'assumptions': ['interval overlap = a <= d and c <= b on record numbers'],
     'require_counters': {'any': ['locks_granted', 'locks_refused', 'unlocks_granted', 'unlocks_refused_other_bounds',
                                  'access_refused_in_foreign_lock', 'second_open_refused', 'histories_with_3_numbers',
+                                 'opens_with_other_spelling_of_open_file', 'locks_refused_across_spellings',
                                  'allen_relations_exercised']},
     'timeout': {'quick': 900, 'thorough': 10800},
 }
 
 FNAME = 'L.DAT'
 RECLEN = 8
+# spellings of the ONE host file <mount>/L.DAT (SUB is an empty directory created in the mount); every OPEN picks one
+SPELLINGS = [b'L.DAT', b'C:L.DAT', b'\\L.DAT', b'C:\\L.DAT', b'.\\L.DAT', b'SUB\\..\\L.DAT', b'l.dat', b'L.dat',
+             b'c:\\Sub\\..\\l.Dat', b'C:.\\L.DAT']
 
 
 def plan(tier, seed):
@@ -65,13 +69,14 @@ def plan(tier, seed):
 
 def open_cmd(op):
     n = op['f']
+    fname = SPELLINGS[op.get('spell', 0) % len(SPELLINGS)]
     if op.get('syntax') == 'old':
-        return b'OPEN "%s",#%d,"%s",%d' % (op['mode'].encode(), n, FNAME.encode(), RECLEN)
+        return b'OPEN "%s",#%d,"%s",%d' % (op['mode'].encode(), n, fname, RECLEN)
     mode = {'R': b'FOR RANDOM ', 'I': b'FOR INPUT ', 'O': b'FOR OUTPUT ', 'A': b'FOR APPEND ', '': b''}[op['mode'] if not op.get('nomode') else '']
     acc = {'': b'', 'R': b'ACCESS READ ', 'W': b'ACCESS WRITE ', 'RW': b'ACCESS READ WRITE '}[op.get('access', '')]
     lck = {'': b'', 'SHARED': b'SHARED ', 'R': b'LOCK READ ', 'W': b'LOCK WRITE ', 'RW': b'LOCK READ WRITE '}[op.get('lock', '')]
     tail = b' LEN=%d' % RECLEN if op['mode'] == 'R' else b''
-    return b'OPEN "%s" %s%s%sAS #%d%s' % (FNAME.encode(), mode, acc, lck, n, tail)
+    return b'OPEN "%s" %s%s%sAS #%d%s' % (fname, mode, acc, lck, n, tail)
 
 
 def range_text(rng, form='to'):
@@ -100,6 +105,7 @@ class History(object):
         self.trace = []
         self.max_open = 0
         self.lock_requests = 0
+        self.differently_spelled = False
 
     # -- helpers ------------------------------------------------------------------------
     def fail(self, key, what):
@@ -150,6 +156,10 @@ class History(object):
             return
         holders = [m for m, o in self.open.items() if o['mode'] in 'OA']
         code, out = self.ex(open_cmd(op))
+        if self.open and any(o.get('spell', 0) % len(SPELLINGS) != op.get('spell', 0) % len(SPELLINGS) for o in self.open.values()):
+            self.res.count('opens_with_other_spelling_of_open_file')
+            if code == 0:
+                self.differently_spelled = True
         if holders:
             first = self.open[holders[0]]['mode']
             if code == 0:
@@ -210,6 +220,8 @@ class History(object):
             if code != 70:
                 self.fail('lock:overlapping-range-refused-with-other-error', '#%d holds %r; LOCK #%d, %r -> %r (expected Permission denied)' % (hn, hr, n, rng, out))
             self.res.count('locks_refused')
+            if self.differently_spelled:
+                self.res.count('locks_refused_across_spellings')
             if who == 'same-number':
                 self.res.count('locks_refused_same_number')
         else:
@@ -330,7 +342,7 @@ def random_history(rng, h):
 
     def rand_open(n):
         mode = rng.choice('RRRRRRRRIIOA')
-        op = {'op': 'open', 'f': n, 'mode': mode}
+        op = {'op': 'open', 'f': n, 'mode': mode, 'spell': 0 if rng.random() < 0.3 else rng.randrange(len(SPELLINGS))}
         if family == 'mixed':
             op['lock'] = rng.choice(['', 'SHARED', 'R', 'W', 'RW'])
             op['access'] = rng.choice(['', '', 'R', 'W', 'RW'])
@@ -471,6 +483,8 @@ def directed_scripts(part):
 # ---------------------------------------------------------------------------------------
 
 def _fresh_file(box):
+    import os
+    os.makedirs(box.path('SUB'), exist_ok=True)
     with open(box.path(FNAME), 'wb') as f:
         f.write(bytes(i & 0xff for i in range(RECLEN * 24)))
 
@@ -512,7 +526,12 @@ def run_shard(spec, res):
         res.count('directed_histories', len(scripts))
 
         def make(i, h):
+            # every OPEN of a directed history spells the file differently (rotating through SPELLINGS)
+            k = 0
             for op in scripts[i]:
+                if op['op'] == 'open':
+                    op = dict(op, spell=(i * 3 + 4 * k) % len(SPELLINGS) if k else i % len(SPELLINGS))
+                    k += 1
                 h.step(op)
         return _run(res, len(scripts), make)
     return _run(res, spec['n'], lambda i, h: random_history(rng, h))
